@@ -58,6 +58,7 @@ def attach_fields(F, cls, owner_member):
     for fn in F.functions.values():
         if fn.get("cls") not in [cls] + F.bases(cls):
             continue
+        fn = F.normal(fn)       # `set_edge_label(&edge_t::guard)`-style helpers put back
         fs = set()
         for n in walk(fn.get("body")):
             lhs = None
@@ -141,7 +142,7 @@ def run_locroute(chk, F, rid="R-LOCROUTE"):
     chk.rule(rid, "invariant / exponentialrate labels reach location_t::invariant / exp_rate through the flag and "
                   "argument positions of proc_location and add_location; <urgent/> and <committed/> reach the callback "
                   "that adds the matching prefix")
-    pl = F.fn(DB + "::proc_location")
+    pl = F.nfn(DB + "::proc_location")
     where = "%s:%s" % (pl["file"], pl["line"])
     # which local receives the popped operand under which flag
     popped = {}
@@ -234,7 +235,7 @@ def run_locroute(chk, F, rid="R-LOCROUTE"):
                 c["args"][0].get("dk") == "enumerator"]
         chk.ob(rid, "%s()|tag" % el, tags == [prefix], "XMLReader::%s looks for the element %s" % (el, tags),
                "%s:%s" % (rf["file"], rf["line"]))
-        cf = F.fn(DB + "::" + cb)
+        cf = F.nfn(DB + "::" + cb)
         pre = [y["name"] for c in calls(cf["body"], "create_prefix") for y in walk(c.get("args", []))
                if y.get("dk") == "enumerator"]
         chk.ob(rid, "%s|prefix" % cb, pre == [prefix],
@@ -315,7 +316,7 @@ def run_endpoints(chk, F, rid="R-ENDPT"):
                "reuses an id, its <init>, <source> and <target> references resolve to the name the earlier template gave "
                "that id" % (fn["q"], how), "%s:%s" % (fn["file"], c.get("l")))
     # builder: from -> fid -> arg0 of add_edge etc.
-    pb = F.fn(DB + "::proc_edge_begin")
+    pb = F.nfn(DB + "::proc_edge_begin")
     pn = [p["name"] for p in pb["params"]]
     res = {}
     for c in calls(pb["body"], "resolve"):
@@ -343,7 +344,7 @@ def run_endpoints(chk, F, rid="R-ENDPT"):
         [x["v"] for c in calls(ini["body"], "getAttribute") for x in walk(c.get("args", [])) if x.get("k") == "str"] == ["ref"]
     chk.ob(rid, "init|ref", okini, "XMLReader::init does not pass the name of the <init ref> location to the builder",
            "%s:%s" % (ini["file"], ini["line"]))
-    pli = F.fn(DB + "::proc_location_init")
+    pli = F.nfn(DB + "::proc_location_init")
     sets = [n for n in walk(pli["body"]) if n.get("k") in ("bin", "call") and n.get("op") == "=" and
             "init" in short(n.get("lhs") or n.get("recv") or {}) and "currentTemplate" in short(n.get("lhs") or n.get("recv") or {})]
     chk.ob(rid, "proc_location_init|init", len(sets) == 1 and any(c.get("name") == "resolve" for c in calls(pli["body"])),
@@ -421,7 +422,7 @@ def run_iter(chk, F, rid="R-ITER"):
 def run_labelorder(chk, F, rid="R-LABELORDER"):
     chk.rule(rid, "proc_location takes invariant and rate by position from the operand stack (rate on top): the reader "
                   "must parse the invariant label before the rate label, whatever order the XML lists them in")
-    pl = F.fn(DB + "::proc_location")
+    pl = F.nfn(DB + "::proc_location")
     flags = [p["name"] for p in pl["params"]]
     order = []
     for n in walk(pl["body"]):
@@ -619,7 +620,7 @@ def run_nodrop(chk, F, G, rid="R-NODROP"):
         raise AnalysisBroken("only %d DocumentBuilder callbacks with a store into the document found" % n)
     for fname in sorted(used):
         atoms, partner, why = NODROP_PARTNER[fname]
-        pf = F.fn(DB + "::" + partner)
+        pf = F.nfn(DB + "::" + partner)
         ok = any(i.get("k") == "if" and all(t in short(i["c"]) for t in atoms) and
                  any(c.get("name") in _REPORTS for c in calls(i.get("then")))
                  for i in walk(pf["body"]))
